@@ -93,6 +93,7 @@ fn channel_of(class: &str, good: &str) -> String {
         "bare" => "channel-".into(),
         "signed" => "channel-+5".into(),
         "negative" => "channel--1".into(),
+        "huge" => "channel-18446744073709551616".into(),
         _ => "channel- 5".into(),
     }
 }
@@ -138,7 +139,7 @@ pub fn classify(cfg: &Value, sub: &str) -> Value {
     let pp = cfg.pointer("/protocol_chain_config/account_address_prefix").and_then(|x| x.as_str()).unwrap_or("");
     let ok = |b: bool, why: &str| if b { "ok".to_string() } else { format!("bad:{why}") };
     let ch = cfg.pointer("/protocol_chain_config/ibc_channel_id").and_then(|x| x.as_str()).unwrap_or("");
-    let chan_ok = ch.strip_prefix("channel-").map(|n| !n.is_empty() && n.chars().all(|c| c.is_ascii_digit())).unwrap_or(false);
+    let chan_ok = ch.strip_prefix("channel-").map(|n| !n.is_empty() && n.chars().all(|c| c.is_ascii_digit()) && n.parse::<u64>().is_ok()).unwrap_or(false);
     let ibcd = cfg.pointer("/protocol_chain_config/ibc_token_denom").and_then(|x| x.as_str()).unwrap_or("");
     let ibc_ok = ibcd.strip_prefix("ibc/").map(|r| r.chars().count() == 64).unwrap_or(false);
     json!({
